@@ -26,6 +26,10 @@ class OutsideSubset(Exception):
     """Raised when code leaves the supported subset: obligations become UNDECIDED."""
 
 
+class EffectMissing(Exception):
+    """an effect the contract talks about did not happen on this path: the clause is false"""
+
+
 class ContractError(Exception):
     """The contract files themselves are broken (checker error, exit 3)."""
 
